@@ -22,6 +22,7 @@ func init() {
 			{ID: "C14.R1", Text: "gocbcore mutations only via the document helpers; every mutating helper call gets an id whose leftmost constant is helpers.Prefix (directly, via getCheckpointID, or via a field written only with such values)", Run: c14r1},
 			{ID: "C14.R2", Text: "IsMetadata ⇔ valid ∧ (HasPrefix(key, Prefix) ∨ HasPrefix(key, TxnPrefix)); the looked-up field name is a promoted []byte field of the three document event wrappers", Run: c14r2},
 			{ID: "C14.R3", Text: "forwarder: filter = helpers.IsMetadata(payload); metadata branch ⇒ position writer called once with dirty=false, save flag untouched, consumer not called", Run: c14r3},
+			{ID: "C14.R5", Text: "absorbed events still advance the position: with dirty=false the writer stores under exactly the same conditions (same rule as C04.R1)", Run: c04r1},
 			{ID: "C14.R4", Text: "getCheckpointID: result = Prefix + groupName + const + Itoa(vbID); panics ⇔ groupName contains '.'", Run: c14r4},
 		},
 	})
@@ -141,6 +142,9 @@ func c14r2(c *Ctx, id string) {
 	c.need(fn != nil, id, "helpers.IsMetadata")
 	prefix, txn := helpersConst(w, "Prefix"), helpersConst(w, "TxnPrefix")
 	c.need(prefix != "" && txn != "", id, "helpers.Prefix / TxnPrefix")
+	// the transaction prefix has an external writer (Couchbase SDK transactions: ATRs `_txn:atr-…`, the client record
+	// `_txn:client-record`); the filter must cover all of them, so the constant is the protocol's common prefix
+	c.Check(txn == "_txn:", id, "txn-prefix", 0, "TxnPrefix = \"_txn:\" (all transaction records)", "TxnPrefix = \""+txn+"\" does not cover every Couchbase transaction record (_txn:atr-…, _txn:client-record): some would be shown to the consumer and dirty the checkpoint")
 	var fieldName string
 	h := &Harness{Fn: fn, Bools: []string{"valid", "hasPrefix", "hasTxn"},
 		Oracle: func(st *State, name string, args []AV, res *types.Tuple) ([]AV, bool) {
